@@ -241,6 +241,9 @@ pub struct Net {
     /// every datagram handed to the network, in send order (observation for oracles)
     pub sent_log: Vec<Dgram>,
     pub keep_sent_log: bool,
+    /// leave the payload hash out of the event log (for rigs whose payloads carry randomised
+    /// ECDSA signatures made by ring's own entropy source: bytes differ, behaviour does not)
+    pub no_payload_hash: bool,
     /// every socket ever bound by real code: (local address, successful recv_from calls)
     pub udp_bind_log: Vec<(SocketAddr, u64)>,
 }
@@ -258,6 +261,10 @@ pub fn configure(base_latency_ns: u64, jitter_ns: u64) {
 
 pub fn keep_sent_log(on: bool) {
     net(|n| n.keep_sent_log = on)
+}
+
+pub fn log_payload_hash(on: bool) {
+    net(|n| n.no_payload_hash = !on)
 }
 
 pub fn udp_bind_log() -> Vec<(SocketAddr, u64)> {
@@ -316,7 +323,7 @@ pub fn default_latency() -> u64 {
 
 /// hand a datagram to the network (fault layer applies)
 pub fn udp_send(src: SocketAddr, dst: SocketAddr, bytes: Vec<u8>) {
-    let (dg, filter, part) = net(|n| {
+    let (dg, filter, part, nohash) = net(|n| {
         let c = n.link_count.entry((src.ip(), dst.ip())).or_insert(0);
         let nth = *c;
         *c += 1;
@@ -325,11 +332,11 @@ pub fn udp_send(src: SocketAddr, dst: SocketAddr, bytes: Vec<u8>) {
             n.sent_log.push(dg.clone());
         }
         let part = n.partitioned.contains(&src.ip()) || n.partitioned.contains(&dst.ip());
-        (dg, n.udp_filter.clone(), part)
+        (dg, n.udp_filter.clone(), part, n.no_payload_hash)
     });
     with(|st| {
         st.count("net.udp.sent", 1);
-        st.log(&format!("udp send {}→{} #{} len={} h={:x}", dg.src, dg.dst, dg.nth, dg.bytes.len(), crate::rng::hash_bytes(0, &dg.bytes)));
+        st.log(&format!("udp send {}→{} #{} len={} h={:x}", dg.src, dg.dst, dg.nth, dg.bytes.len(), if nohash { 0 } else { crate::rng::hash_bytes(0, &dg.bytes) }));
     });
     if part {
         exec::count("fault.partition_drop");
